@@ -7,14 +7,17 @@ export GOPROXY=off GOSUMDB=off GOTOOLCHAIN=local
 git -C /repo worktree remove --force $WT 2>/dev/null; git -C /repo worktree prune
 git -C /repo worktree add --detach $WT HEAD >/dev/null 2>&1 || { echo "worktree failed"; exit 2; }
 trap 'git -C /repo worktree remove --force '$WT' 2>/dev/null' EXIT
+DD="${DEMO_DIR:-hermes}"; TAGS="${DEMO_TAGS:-}"
+grep -q "src/hermes2go" "$S/meta.json" 2>/dev/null && [ -z "$DEMO_DIR" ] && grep -q "^package main" "$S"/*_test.go && DD=src/hermes2go
+grep -q -- "-tags verif" "$S/meta.json" 2>/dev/null && TAGS="-tags verif"
 n=0
-for f in "$S"/*_test.go; do [ -f "$f" ] || continue; n=$((n+1)); cp "$f" $WT/hermes/zz_seed_demo${n}_test.go; done
+for f in "$S"/*_test.go; do [ -f "$f" ] || continue; n=$((n+1)); cp "$f" $WT/$DD/zz_seed_demo${n}_test.go; done
 [ $n -gt 0 ] || { echo "NO-GO-TEST-DEMO $ID (manual)"; exit 3; }
-run_demo() { (cd $WT/hermes && timeout 600 go test -vet=off -count=1 -run Seed . 2>&1 | tail -${1:-3}); }
+run_demo() { (cd $WT/$DD && timeout 600 go test $TAGS -vet=off -count=1 -run Seed . 2>&1 | tail -${1:-3}); }
 A=$(run_demo 3); echo "$A" | grep -q "^ok" || { echo "DEMO-FAILS-ON-CLEAN $ID: $A"; exit 1; }
 git -C $WT apply "$S/patch.diff" || { echo "PATCH-DOES-NOT-APPLY $ID"; exit 1; }
 B=$(run_demo 12); echo "$B" | grep -q "^FAIL\|^--- FAIL\|panic" || { echo "DEMO-PASSES-WITH-PATCH $ID: $B"; exit 1; }
-rm -f $WT/hermes/zz_seed_demo*_test.go
+rm -f $WT/$DD/zz_seed_demo*_test.go
 /tmp/seedkit/run_tests.sh $WT /tmp/seedconfirm-$ID.tests >/dev/null
 LOST=$(comm -23 /tmp/seedkit/baseline.txt /tmp/seedconfirm-$ID.tests | wc -l); rm -f /tmp/seedconfirm-$ID.tests
 [ "$LOST" = 0 ] || { echo "SUITE-LOSES-$LOST-TESTS $ID"; exit 1; }
